@@ -307,18 +307,7 @@ impl<const V: usize> Exec<V> {
             sem = AllocationSemantics::Default;
             cnt!(self, "steered_unmapped_semantics");
         }
-        // Known finding C01 compressor-stale-ref-from-immortal-or-nonmoving: the Compressor does not
-        // update references held by objects of the immortal / non-moving spaces.  Steer away.
-        if self.case.plan == "Compressor" && matches!(sem, AllocationSemantics::Immortal | AllocationSemantics::NonMoving | AllocationSemantics::Code | AllocationSemantics::ReadOnly) && !self.allow_known("compressor-stale-ref-from-immortal-or-nonmoving") {
-            sem = AllocationSemantics::Default;
-            cnt!(self, "steered_compressor_immortal");
-        }
-        // Known finding C01 markcompact-nonmoving-double-release: MarkCompact releases and prepares the
-        // common spaces mid-GC, which sweeps the Immix non-moving space twice.  Steer away.
-        if self.case.plan == "MarkCompact" && matches!(sem, AllocationSemantics::NonMoving) && !self.allow_known("markcompact-nonmoving-double-release") {
-            sem = AllocationSemantics::Default;
-            cnt!(self, "steered_markcompact_nonmoving");
-        }
+        sem = self.steer_semantics(sem);
         // align in [MIN, MAX], power of two
         let max_log = vd.max_align.trailing_zeros() as u8;
         let min_log = vd.min_align.trailing_zeros() as u8;
@@ -360,6 +349,23 @@ impl<const V: usize> Exec<V> {
             cnt!(self, "steered_bump_slack");
         }
         (size, sem, align, offset)
+    }
+
+    /// Steer allocation semantics away from listed known findings (counting what was steered).
+    fn steer_semantics(&mut self, mut sem: AllocationSemantics) -> AllocationSemantics {
+        // Known finding C01 compressor-stale-ref-from-immortal-or-nonmoving: the Compressor does not
+        // update references held by objects of the immortal / non-moving spaces.
+        if self.case.plan == "Compressor" && matches!(sem, AllocationSemantics::Immortal | AllocationSemantics::NonMoving | AllocationSemantics::Code | AllocationSemantics::ReadOnly) && !self.allow_known("compressor-stale-ref-from-immortal-or-nonmoving") {
+            sem = AllocationSemantics::Default;
+            cnt!(self, "steered_compressor_immortal");
+        }
+        // Known finding C01 markcompact-nonmoving-double-release: MarkCompact releases and prepares the
+        // common spaces mid-GC, which sweeps the Immix non-moving space twice.
+        if self.case.plan == "MarkCompact" && matches!(sem, AllocationSemantics::NonMoving) && !self.allow_known("markcompact-nonmoving-double-release") {
+            sem = AllocationSemantics::Default;
+            cnt!(self, "steered_markcompact_nonmoving");
+        }
+        sem
     }
 
     /// cases can opt into reproducing a known finding with the pseudo option `__allow:<signature>`
@@ -1144,6 +1150,57 @@ impl<const V: usize> Exec<V> {
                     self.set_root(m, r, 0, 0);
                 }
             }
+            Op::DenseFill { m, root, n, extra, keep } => {
+                let m = self.pick_m(*m);
+                let r = Self::root_idx(*root);
+                let groups = (*n as usize % 32) + 1;
+                let k = (*keep as usize % 4) + 1;
+                let extra = (*extra as usize) & !7;
+                if self.is_nogc {
+                    return;
+                }
+                const SLOTS: usize = 64;
+                self.set_root(m, r, 0, 0);
+                'outer: for _ in 0..groups {
+                    // holder: slot 63 chains to the previous holder
+                    let hid = self.alloc_obj(m, 0, SLOTS, KIND_PLAIN, 0, 0, 0);
+                    if hid == 0 {
+                        break;
+                    }
+                    let ha = self.objs[&hid].addr;
+                    let prev = self.roots[m][r];
+                    if prev != 0 {
+                        let pa = self.root_addr(m, r);
+                        self.write_field(m, ha, SLOTS - 1, pa, false);
+                        self.objs.get_mut(&hid).unwrap().fields[SLOTS - 1] = prev;
+                    }
+                    self.set_root(m, r, hid, ha);
+                    for i in 0..(SLOTS - 1) * k {
+                        let id = self.alloc_obj(m, extra, 0, KIND_PLAIN, 0, 0, 0);
+                        if id == 0 {
+                            break 'outer;
+                        }
+                        if i % k == 0 {
+                            let a = self.objs[&id].addr;
+                            let ha = self.root_addr(m, r);
+                            let hid = self.roots[m][r];
+                            self.write_field(m, ha, i / k, a, false);
+                            self.objs.get_mut(&hid).unwrap().fields[i / k] = id;
+                        } else {
+                            // garbage right away (its interval stays until the next GC)
+                            let o = self.objs.remove(&id).unwrap();
+                            self.addr2id.remove(&o.addr);
+                            if self.dead_addrs.len() < 4096 {
+                                self.dead_addrs.push((o.addr, id, o.size));
+                            }
+                        }
+                        if !self.verdict.ok {
+                            return;
+                        }
+                    }
+                }
+                cnt!(self, "dense_fill");
+            }
             Op::Hide { m, src, dst } => {
                 let m = self.pick_m(*m);
                 let s = Self::root_idx(*src);
@@ -1593,12 +1650,41 @@ impl<const V: usize> Exec<V> {
         if emergency {
             cnt!(self, "gc_emergency");
         }
-        let r1 = self.strong_closure(&roots, !emergency);
-        let fin_unreach: Vec<u64> = self.fin_registered.iter().copied().filter(|id| !r1.contains(id)).collect();
-        let mut r2_starts = roots.clone();
-        r2_starts.extend(fin_unreach.iter().copied());
-        let r2 = self.strong_closure(&r2_starts, !emergency);
+        // Soft references (reference_processor.rs, `retain`): one pass over the table retains the referent
+        // of every soft reference that is *already* live, i.e. strongly reachable (R0) - or marked a moment
+        // earlier in the same pass as the direct referent of another soft reference (table order is
+        // arbitrary).  Soft references that only become reachable through retained referents are scanned
+        // after the closure without retention.  MMTk's retained set M therefore lies between
+        //   r1_min = closure(roots + referents of soft references in R0)            (strong edges only) and
+        //   r1_max = closure following soft referents transitively;
+        // the safety direction is asserted against the lower bound, completeness against the upper bound.
+        let r0 = self.strong_closure(&roots, false);
+        let (r1_min, r1_max) = if emergency {
+            (r0.clone(), r0.clone())
+        } else {
+            let mut starts = roots.clone();
+            for id in r0.iter() {
+                if let Some(o) = self.objs.get(id) {
+                    if o.kind == KIND_SOFT && self.ref_registered.contains_key(id) && o.fields[0] != 0 {
+                        starts.push(o.fields[0]);
+                    }
+                }
+            }
+            (self.strong_closure(&starts, false), self.strong_closure(&roots, true))
+        };
+        // finalizable objects are kept with their strong closure whether they are still candidates or ready
+        let fin_closure = self.strong_closure(&self.fin_registered.clone(), false);
+        let r2_min: HashSet<u64> = r1_min.union(&fin_closure).copied().collect();
+        let r2_max: HashSet<u64> = r1_max.union(&fin_closure).copied().collect();
+        let fin_unreach: Vec<u64> = self.fin_registered.iter().copied().filter(|id| !r1_min.contains(id)).collect();
+        let fin_unreach_must: Vec<u64> = self.fin_registered.iter().copied().filter(|id| !r1_max.contains(id)).collect();
 
+        if let Ok(wl) = std::env::var("VH_WATCH") {
+            for id in wl.split(',').filter_map(|x| x.parse::<u64>().ok()) {
+                let o = self.objs.get(&id);
+                eprintln!("  watch id {} before verify of GC #{}: strong={} r1={} r2={} emergency={} known={} addr={:#x} fields={:?} kind={:?}", id, self.gcs_seen, r0.contains(&id), r1_min.contains(&id), r2_min.contains(&id), emergency, o.is_some(), o.map(|o| o.addr).unwrap_or(0), o.map(|o| o.fields.clone()), o.map(|o| o.kind));
+            }
+        }
         // --- the walk
         let mut w = Walk::default();
         for m in 0..MAX_MUTATORS {
@@ -1675,9 +1761,9 @@ impl<const V: usize> Exec<V> {
         for (rid, fid) in &w.cleared {
             let kind = self.objs[rid].kind;
             let retained_set = match kind {
-                KIND_SOFT => &r1,
-                KIND_WEAK => &r1,
-                _ => &r2,
+                KIND_SOFT => &r1_min,
+                KIND_WEAK => &r1_min,
+                _ => &r2_min,
             };
             if self.ref_registered.contains_key(rid) && retained_set.contains(fid) {
                 self.violate("C06", "cleared-reachable-referent", format!("GC #{}: reference object id {} (kind {}) had its referent id {} cleared although the referent was still reachable", self.gcs_seen, rid, kind, fid));
@@ -1693,9 +1779,9 @@ impl<const V: usize> Exec<V> {
             for (rid, fid) in &w.retained {
                 let kind = self.objs[rid].kind;
                 let must_clear = match kind {
-                    KIND_SOFT => emergency && !r1.contains(fid), // soft references are only cleared in emergency collections
-                    KIND_WEAK => !r1.contains(fid),
-                    _ => !r2.contains(fid),
+                    KIND_SOFT => emergency && !r1_max.contains(fid), // otherwise clearing a soft reference is never mandatory
+                    KIND_WEAK => !r1_max.contains(fid),
+                    _ => !r2_max.contains(fid),
                 };
                 // Known finding (C06): reference processing decides by `ObjectReference::is_live`, which
                 // ImmortalSpace answers with `true` for every object: a reference whose referent lives in the
@@ -1757,7 +1843,7 @@ impl<const V: usize> Exec<V> {
         // the next full-heap GC: the expectation only holds until the next collection of any kind.
         self.fin_must_ready.clear();
         if exhaustive {
-            self.fin_must_ready = fin_unreach.clone();
+            self.fin_must_ready = fin_unreach_must.clone();
         }
 
         // --- C13 accounting
@@ -1831,7 +1917,7 @@ impl<const V: usize> Exec<V> {
                                 cnt!(self, "c13_abstain_immortal_in_nursery_gc");
                                 continue;
                             }
-                            if r2.contains(&id) && !*ok {
+                            if r2_min.contains(&id) && !*ok {
                                 self.violate("C13", "weak-before-closure", format!("GC #{}: at the first process_weak_refs call object id {} (reachable) reported is_reachable() == false", self.gcs_seen, id));
                                 return;
                             }
@@ -1843,7 +1929,7 @@ impl<const V: usize> Exec<V> {
             // ephemeron model: entries with reachable keys must be kept
             let kept: HashSet<(u64, u64)> = eph_now.iter().map(|e| (e.2, e.3)).collect();
             for (kid, vid) in self.eph_model.clone() {
-                if r2.contains(&kid) && !kept.contains(&(kid, vid)) {
+                if r2_min.contains(&kid) && !kept.contains(&(kid, vid)) {
                     self.violate("C13", "ephemeron-lost", format!("GC #{}: ephemeron (key id {}, value id {}) dropped although the key was reachable", self.gcs_seen, kid, vid));
                     return;
                 }
@@ -2049,7 +2135,10 @@ impl<const V: usize> Exec<V> {
 
     fn alloc_with_options(&mut self, m: usize, r: usize, size_class: u8, sem: u8, overcommit: bool, at_safepoint: bool, allow_oom: bool) {
         let vd = variant(V);
-        let heap_bytes = (self.case.heap_kb as usize) * 1024;
+        let heap_bytes = match self.case.dyn_heap {
+            Some((_, max)) => max as usize * 1024,
+            None => (self.case.heap_kb as usize) * 1024,
+        };
         let size: usize = match size_class % 8 {
             0 => 64,
             1 => 4096,
@@ -2064,6 +2153,7 @@ impl<const V: usize> Exec<V> {
         if matches!(mm::get_allocator_mapping(self.mmtk, sem), mmtk::util::alloc::AllocatorSelector::None) {
             sem = AllocationSemantics::Default;
         }
+        sem = self.steer_semantics(sem);
         if matches!(sem, AllocationSemantics::Default) && size > self.max_non_los {
             sem = AllocationSemantics::Los;
         }
